@@ -317,12 +317,15 @@ PROPS = {
                 "evaluated at the fake connection instant (exact, no margins); oracle: kicked connection closed after one second and every other "
                 "client told (302); a connection is refused (handshake reply + exactly one server message + close, login not processed, not in "
                 "the user list, nobody notified) iff the model says banned, otherwise it logs in; ban file reloaded by a fresh BanFile == model; "
-                "non-trivial = a reconnect from a banned address, a reconnect after expiry, or a restart with >= 1 ban; distinct = hash(history); TestC17Burst: 2-8 administrators disconnect-and-ban 2-8 different users at the same instant (1-3 rounds), every ban must be in the ban file and enforced at the door before and after a restart; operator-unban action: an entry is removed from the ban file by hand and the file is reloaded, after which the address is admitted again",
+                "non-trivial = a reconnect from a banned address, a reconnect after expiry, or a restart with >= 1 ban; distinct = hash(history); TestC17Burst: 2-8 administrators disconnect-and-ban 2-8 different users at the same instant (1-3 rounds), every ban must be in the ban file and enforced at the door before and after a restart; operator-unban action: an entry is removed from the ban file by hand and the file is reloaded, after which the address is admitted again; TestC17Net (child process, production listeners over loopback): an administrator from 127.0.0.2 kicks a user from 127.0.0.3 with a ban: the ban file names 127.0.0.3, that address is refused and 127.0.0.4 is admitted",
         "assumptions": ["testing/synctest fake clock: time.Now() in mobius and in the model are the same instant"],
+        "needs_cmds": True,
         "quick": {"runs": [{"test": "^TestC17$", "shards": 13, "checks": 100, "timeout": 600},
-                           {"test": "^TestC17Burst$", "shards": 3, "checks": 40, "timeout": 600}]},
+                           {"test": "^TestC17Burst$", "shards": 2, "checks": 60, "timeout": 600},
+                           {"test": "^TestC17Net$", "shards": 1, "timeout": 600}]},
         "thorough": {"runs": [{"test": "^TestC17$", "shards": 13, "checks": 2500, "timeout": 3400},
-                              {"test": "^TestC17Burst$", "shards": 3, "checks": 2500, "timeout": 3400}]},
+                              {"test": "^TestC17Burst$", "shards": 2, "checks": 3700, "timeout": 3400},
+                              {"test": "^TestC17Net$", "shards": 1, "timeout": 600}]},
     },
     "C11": {
         "title": "File views agree and file operations carry the whole file",
